@@ -30,7 +30,7 @@ REQUIRED = ["contract:Assertion.set_p_values", "contract:Audit.summarize_status"
             "p_equal_to_limit_confirmed", "second_call_same_length_different_data", "contest_meets_neighbours_limit_not_own",
             "params_silent", "params_rejected", "proved_sticky_observed"]
 ASSUMPTIONS = ["samples have at least one observation per assertion", "summarize_status prints: stdout is swallowed, not parsed"]
-N_CASES = {"quick": 3200, "thorough": 80000}
+N_CASES = {"quick": 9600, "thorough": 80000}
 
 
 def pre_set_p(a, k):
